@@ -9,15 +9,30 @@ Properties whose models use tables regenerated from the source (uses_generated) 
 lean/Sourmash/Generated with the real checks, so run those only when nothing else is checking."""
 import sys, os, subprocess, shutil, json, re, tempfile
 ROOT = os.path.dirname(os.path.dirname(os.path.abspath(__file__)))
+TARGET_MUT = None
 def sh(*a, **k):
     return subprocess.run(a, capture_output=True, text=True, **k)
 def main():
-    # one mutest at a time: the scratch target dir (.cache/target-mut) is shared and two concurrent
-    # runs would overwrite each other's harness binaries
+    # a small pool of scratch target dirs (.cache/target-mut, -1, -2): each run takes a free slot
+    # (or waits for slot 0); two runs never share a slot, so they cannot overwrite each other's
+    # harness binaries
     import fcntl
     os.makedirs(os.path.join(ROOT, ".cache"), exist_ok=True)
-    lock = open(os.path.join(ROOT, ".cache", "mutest.lock"), "w")
-    fcntl.flock(lock, fcntl.LOCK_EX)
+    slot, lock = None, None
+    for k in range(3):
+        f = open(os.path.join(ROOT, ".cache", f"mutest{k}.lock"), "w")
+        try:
+            fcntl.flock(f, fcntl.LOCK_EX | fcntl.LOCK_NB)
+            slot, lock = k, f
+            break
+        except OSError:
+            f.close()
+    if slot is None:
+        lock = open(os.path.join(ROOT, ".cache", "mutest0.lock"), "w")
+        fcntl.flock(lock, fcntl.LOCK_EX)
+        slot = 0
+    global TARGET_MUT
+    TARGET_MUT = os.path.join(ROOT, ".cache", "target-mut" + ("" if slot == 0 else f"-{slot}"))
     args = sys.argv[1:]
     tier = "quick"
     if "--tier" in args:
@@ -36,7 +51,7 @@ def main():
         ct = open(os.path.join(hz, "Cargo.toml")).read().replace('/repo/src/core', wt + '/src/core')
         open(os.path.join(hz, "Cargo.toml"), "w").write(ct)
         env = dict(os.environ, VERIF_REPO=wt, VERIF_HARNESS_DIR=hz, VERIF_OUT=out,
-                   VERIF_TARGET=os.path.join(ROOT, ".cache", "target-mut"), VERIF_TIER=tier)
+                   VERIF_TARGET=TARGET_MUT, VERIF_TIER=tier)
         rc_all = 0
         for pid in props:
             r = sh(os.path.join(ROOT, "check"), pid, "--tier", tier, env=env, cwd=ROOT)
